@@ -80,8 +80,11 @@ fn fam_limits(ctx: &CaseCtx, cov: &mut Cov) -> CaseOut {
     let dict: u32 = if api >= 2 { dict_field.max(1) } else { dict_field.max(4096) };
     let d = dict as u64;
     // output length: 0 .. 3 * dict, with emphasis on the wrap point
-    let target: u64 = match rng.below(8) {
+    let target: u64 = match rng.below(9) {
         0 => 0,
+        // many windows of output through a small dictionary (R20-C10: a reused decoder pre-sized
+        // its window from the previous call's OUTPUT length - invisible while output <= 3 x window)
+        8 if d <= 8192 => rng.range(3 * d, (60 * d).min(300_000)),
         1 => rng.range(1, 20),
         2 => d.saturating_sub(rng.below(3)),
         3 => d + rng.below(3),
@@ -212,8 +215,14 @@ fn fam_limits(ctx: &CaseCtx, cov: &mut Cov) -> CaseOut {
         if measure {
             // coarse second witness: heap growth stays proportional to the limit
             let table = (0x300u64 << (props.lc + props.lp)) * 2;
-            let allowed = table + 3 * (m.min(need) as u64) + (1 << 20);
+            // (a Vec that grows by doubling holds old + new capacity for a moment: 3 x the window;
+            // everything else the decoder allocates is a few KiB - the largest excess ever observed
+            // on the unchanged tree is reported as heap_peak_over_table_and_3x_window_bytes, ~4.5 KiB.
+            // R20-C10 pre-sized a reused decoder's window from the previous call's OUTPUT length,
+            // which the WinGrow hook does not see; 64 KiB of slack instead of 1 MiB exposes it)
+            let allowed = table + 3 * (m.min(need) as u64) + (64 << 10);
             cov.max("heap_peak_over_table_bytes", r.peak_heap.saturating_sub(table));
+            cov.max("heap_peak_over_table_and_3x_window_bytes", r.peak_heap.saturating_sub(table + 3 * (m.min(need) as u64)));
             cov.name("allocator_measured_runs", 1);
             if r.peak_heap > allowed {
                 out.violate(
@@ -248,7 +257,7 @@ pub fn monitor(tier: Tier) -> Monitor {
     Monitor {
         id: "C10",
         level: "exploration",
-        rule: "per valid stream (header dictionary field 0 / 1 / 100 / 4095 / 4096 / 4097 / 5000 / 8192 / 64 KiB / 1 MiB - values below 4096 act as 4096 except in the raw decoder -, output 0 .. 3 x dict with emphasis on the wrap point) an unlimited run measures the window actually needed (WinGrow hook), then limits {0, 1, need-1, need, need+1, dict-1, dict, dict+1, usize::MAX, random, 2^32, 2^32+1, header field - 1, header field} are applied through the one-shot API, Stream (random chunking), the raw decoder, and a raw decoder object (constructed for the same, a tiny, an unknown or a larger declared size) that already served an earlier (complete or failing) call and was reset to the real size: m >= need must reproduce the unlimited result, m < need must fail, and the WinGrow hook must never report a buffer above m; a quarter of the runs use a non-storing sink and the counting allocator as a coarse second witness; distinct by hash of (file, api, limit)",
+        rule: "per valid stream (header dictionary field 0 / 1 / 100 / 4095 / 4096 / 4097 / 5000 / 8192 / 64 KiB / 1 MiB - values below 4096 act as 4096 except in the raw decoder -, output 0 .. 3 x dict with emphasis on the wrap point, and up to 60 x dict for dictionaries of 8 KiB and less) an unlimited run measures the window actually needed (WinGrow hook), then limits {0, 1, need-1, need, need+1, dict-1, dict, dict+1, usize::MAX, random, 2^32, 2^32+1, header field - 1, header field} are applied through the one-shot API, Stream (random chunking), the raw decoder, and a raw decoder object (constructed for the same, a tiny, an unknown or a larger declared size) that already served an earlier (complete or failing) call and was reset to the real size: m >= need must reproduce the unlimited result, m < need must fail, and the WinGrow hook must never report a buffer above m; a quarter of the runs use a non-storing sink and the counting allocator as a coarse second witness; distinct by hash of (file, api, limit)",
         assumptions: vec![
             "need = the largest window length reported by the hook in the unlimited run; a warning is recorded if it differs from min(dict, produced)".into(),
             "allocator bound is deliberately loose (3 x limit + literal table + 1 MiB): Vec growth doubles".into(),
